@@ -33,9 +33,10 @@ RULE = ('(1) Hypothesis-generated well-typed programs with typing-heavy features
         '(both directions); for accepted programs the output on the VM must equal the reference interpreter\'s, which shows '
         'which overload ran. Non-trivial: every mutant, and every accepted program with a call that has >= 2 arity-compatible '
         'candidates. Distinct by hash of the source.')
-ASSUMPTIONS = ['ref/types.py reads README "Types", "Arrays and strings", the cast table and tests/test_typecheck.py as documentation',
-               'mutation sites are restricted to statements not preceded by anything that may exit (the compiler does not '
-               'typecheck code it drops as unreachable; that is C16\'s subject)']
+ASSUMPTIONS = ['mutation sites are those every correct compiler must treat as reachable (see safe_sites): after conditional exits, loops with non-constant conditions, preempt blocks and tries whose handler can complete',
+               'ref/types.py reads README "Types", "Arrays and strings", the cast table and tests/test_typecheck.py as documentation',
+               'the compiler does not typecheck code it drops as unreachable (that is C16\'s subject), so sites whose '
+               'reachability depends on constant conditions or on loops without a condition are not used']
 MIN_NONTRIVIAL = 300
 
 
@@ -82,42 +83,108 @@ def may_exit(s):
 
 
 def safe_sites(ck):
-    """Sites not preceded, in their own or any enclosing block, by a statement that may exit."""
-    tainted = set()
+    """Sites that every correct compiler must treat as reachable (a sound under-approximation of "can be reached"):
+    all earlier statements of the block, and of every enclosing block, can complete normally by the language's own
+    control-flow rules, and the block itself is entered under a non-constant condition.  A statement can complete if it
+    is a plain statement (calls that *may* defeat included), `!truth_is_defeat` of a non-constant condition, an if whose
+    condition is not constant and one of whose arms (or the missing else) can complete, a loop with a non-constant
+    condition (it may run zero times), a preempt block (it may be skipped), a try whose body can complete or whose
+    handler can complete while the body contains a call that may defeat.  Anything else (return, break, continue,
+    !is_defeat(), terminal calls, constant conditions, loops without condition) taints what follows."""
+    const_names = set()
+    for n in hast.walk(ck.prog):
+        if isinstance(n, Decl) and n.const and not is_arr(n.ty):
+            const_names.add(n.name)
 
-    def visit(block, dirty):
-        d = dirty
+    def nonconst(e):
+        if e is None:
+            return False
+        for n in hast.walk(e):
+            if isinstance(n, Call):
+                return True
+            if isinstance(n, Var) and n.name not in const_names:
+                return True
+        return False
+
+    def may_defeat(b):
+        return any(isinstance(n, Call) and n.name.startswith('!') for n in hast.walk(b))
+
+    def completes(s):
+        if isinstance(s, Block):
+            return all(completes(x) for x in s.stmts)
+        if isinstance(s, (Return, Break, Continue)):
+            return False
+        if isinstance(s, ExprStmt) and isinstance(s.e, Call):
+            if s.e.name in ('!is_defeat', 'all_is_win', 'all_is_broken'):
+                return False
+            if s.e.name == '!truth_is_defeat':
+                return all(nonconst(a) for a in s.e.args)
+            return True
+        if isinstance(s, If):
+            if not nonconst(s.cond):
+                return False
+            return completes(s.then) or s.els is None or completes(s.els)
+        if isinstance(s, While):
+            return nonconst(s.cond)
+        if isinstance(s, For):
+            return s.cond is not None and nonconst(s.cond) and (s.init is None or completes(s.init))
+        if isinstance(s, Preempt):
+            return True
+        if isinstance(s, Try):
+            return completes(s.body) or (completes(s.handler) and may_defeat(s.body))
+        return True
+
+    ok = set()
+    in_try = set()      # sites inside a try body (where ??, try and you-calls are context errors)
+
+    def visit(block, reachable, tried=False):
+        r = reachable
         for i, s in enumerate(block.stmts):
-            if d:
-                tainted.add((id(block), i))
-            for n in hast.walk(s):
-                if isinstance(n, Block) and n is not s:
-                    pass
-            for sub in sub_blocks(s):
-                visit(sub, d)
-            if may_exit(s):
-                d = True
-        if d:
-            tainted.add((id(block), len(block.stmts)))
+            if r:
+                ok.add((id(block), i))
+            if tried:
+                in_try.add((id(block), i))
+            for sub, entered in sub_blocks(s):
+                visit(sub, r and entered, tried or (isinstance(s, Try) and sub is s.body))
+            if not completes(s):
+                r = False
+        if r:
+            ok.add((id(block), len(block.stmts)))
+        if tried:
+            in_try.add((id(block), len(block.stmts)))
 
     def sub_blocks(s):
         out = []
         if isinstance(s, Block):
-            out.append(s)
+            out.append((s, True))
         elif isinstance(s, If):
-            out += [b for b in (s.then, s.els) if isinstance(b, Block)]
-            if s.els is not None and not isinstance(s.els, Block):
-                out += sub_blocks(s.els)
-        elif isinstance(s, (While, For, Preempt)):
+            nc = nonconst(s.cond)
+            if isinstance(s.then, Block):
+                out.append((s.then, nc))
+            if isinstance(s.els, Block):
+                out.append((s.els, nc))
+            elif s.els is not None:
+                out += [(b, e and nc) for b, e in sub_blocks(s.els)]
+        elif isinstance(s, While):
             if isinstance(s.body, Block):
-                out.append(s.body)
+                out.append((s.body, nonconst(s.cond)))
+        elif isinstance(s, For):
+            if isinstance(s.body, Block):
+                out.append((s.body, s.cond is not None and nonconst(s.cond)))
+        elif isinstance(s, Preempt):
+            if isinstance(s.body, Block):
+                out.append((s.body, True))
         elif isinstance(s, Try):
-            out += [b for b in (s.body, s.handler) if isinstance(b, Block)]
+            if isinstance(s.body, Block):
+                out.append((s.body, True))
+            if isinstance(s.handler, Block):
+                out.append((s.handler, may_defeat(s.body)))
         return out
 
     for f in ck.prog.funcs:
-        visit(f.body, False)
-    return [st_ for st_ in ck.sites if st_[4] is not None and (id(st_[0]), st_[1]) not in tainted]
+        visit(f.body, True)
+    ck.try_sites = in_try
+    return [st_ for st_ in ck.sites if st_[4] is not None and (id(st_[0]), st_[1]) in ok]
 
 
 def V(name, t=None):
@@ -180,7 +247,7 @@ def build_mutant(rule, site, draw, ck):
         if draw(st.integers(0, 3)) == 0:
             # constant ints that are not literals: explicit casts and (in a you function) a ?? of two literals (F11, F12)
             consts = [Is(I(3), INT), Is(Lit('bool', True, None), INT), Bin('+', Is(I(3), INT), I(1)), Is(Lit('char', 65, None), INT)]
-            if func.name.startswith('@'):
+            if func.name.startswith('@') and (id(block), idx) not in getattr(ck, 'try_sites', ()):
                 consts += [Spec(I(5), I(27)), Bin('*', Spec(I(5), I(5)), I(2))]
             src = draw(st.sampled_from(consts))
         if rule == 'narrow_decl':
@@ -388,7 +455,15 @@ def check_case(stats, case, rule, data):
     sites = safe_sites(ck)
     if not sites:
         raise Discard('no safe mutation site')
-    site = sites[data.draw(st.integers(0, len(sites) - 1))]
+    # statements right after a compound statement (loop, try, if, preempt) are where a compiler's reachability analysis
+    # decides whether the rest of the block is typechecked at all: prefer them
+    post = [st_ for st_ in sites if st_[1] > 0 and isinstance(st_[0].stmts[st_[1] - 1], (Try, While, For, If, Preempt))]
+    post_try = [st_ for st_ in post if isinstance(st_[0].stmts[st_[1] - 1], Try)]
+    roll = data.draw(st.integers(0, 9))
+    pool = post_try if (post_try and roll < 3) else post if (post and roll < 6) else sites
+    if pool is not sites:
+        stats.cls('site_after_compound_statement')
+    site = pool[data.draw(st.integers(0, len(pool) - 1))]
     stmts = build_mutant(rule, site, data.draw, ck)
     if stmts is None:
         stats.cls('mutant_not_applicable')
@@ -409,7 +484,10 @@ def run_shard(k, seed, tier):
     stats = Stats()
     n = 500 if tier == 'quick' else 8000
     feats = (ALL_FEATURES if k % 4 == 0 else SEQ_FEATURES) - {'faults'}
-    strat = st.tuples(programs(features=feats, size=dict(main_stmts=8, funcs=6, overload_pct=45)), st.sampled_from(RULES), st.data())
+    size = dict(main_stmts=8, funcs=6, overload_pct=45)
+    if 'tt' in feats:
+        size.update(fallback_try_pct=35, uncond_exit_pct=12, search_loop_weight=5)
+    strat = st.tuples(programs(features=feats, size=size), st.sampled_from(RULES), st.data())
 
     def chk(v):
         case, rule, data = v
